@@ -2629,9 +2629,9 @@ class Exec(Engine):
                 return node
 
         import copy as _copy
-        # imports made earlier in the function stay (they only bind names)
+        # imports and nested function definitions made earlier in the function stay (they only bind names)
         for k in range(0, starts[0]):
-            if isinstance(fnode.body[k], (ast.Import, ast.ImportFrom)):
+            if isinstance(fnode.body[k], (ast.Import, ast.ImportFrom, ast.FunctionDef)):
                 out.append(fnode.body[k])
         for k in range(starts[0], len(srcs)):
             hit = [d for d in drops if srcs[k].startswith(d)]
